@@ -87,3 +87,45 @@ func VerifRouterService(r *Router, name string) *Service { return r.serviceForNa
 func VerifRouterServiceForHost(r *Router, host string) *Service { return r.serviceForHost(host) }
 
 func VerifSaveState(r *Router) error { return r.saveStateSnapshot() }
+
+// VerifServiceSummary is a read-only description of a service's in-memory
+// configuration (what `list`, the options and the pause / rollout state say).
+type VerifServiceSummary struct {
+	Name           string
+	Options        ServiceOptions
+	TargetOptions  TargetOptions
+	ActiveTargets  []string
+	RolloutTargets []string
+	PauseState     string
+	StopMessage    string
+	FailAfter      int64
+	HasSplit       bool
+	Percentage     int
+	Allowlist      []string
+}
+
+func VerifSummarize(s *Service) VerifServiceSummary {
+	s.serviceLock.Lock()
+	defer s.serviceLock.Unlock()
+
+	sum := VerifServiceSummary{Name: s.name, Options: s.options, TargetOptions: s.targetOptions}
+	if s.active != nil {
+		sum.ActiveTargets = s.active.Targets().Names()
+	}
+	if s.rollout != nil {
+		sum.RolloutTargets = s.rollout.Targets().Names()
+	}
+	if s.pauseController != nil {
+		s.pauseController.lock.RLock()
+		sum.PauseState = s.pauseController.State.String()
+		sum.StopMessage = s.pauseController.StopMessage
+		sum.FailAfter = int64(s.pauseController.FailAfter)
+		s.pauseController.lock.RUnlock()
+	}
+	if s.rolloutController != nil {
+		sum.HasSplit = true
+		sum.Percentage = s.rolloutController.Percentage
+		sum.Allowlist = s.rolloutController.Allowlist
+	}
+	return sum
+}
